@@ -1,10 +1,11 @@
 import OZ.DrvUtil
-import OZ.Model.Policies
+import OZ.Model.PoliciesMon
 /-
-Driver for C14 (account policies). `op` runs the MODEL (OZ.Policies) on an op line and prints
-its observation in the harness's format. `mon` is the monitor: it never calls the model; it
-keeps its own ghost log of accepted spends and evaluates the property's conclusions on the
-IMPLEMENTATION's observation lines:
+Driver for C14 (account policies). It only PARSES and PRINTS: `op` parses an op line, runs the
+MODEL (`OZ.Policies.Mon.mstep`, i.e. OZ.Policies) and prints its observation in the harness's
+format; `mon` parses the op line and the IMPLEMENTATION's observation line and calls the monitor
+core `OZ.Policies.Mon.checkCore` (OZ/Model/PoliciesMon.lean), which never calls the model; it
+keeps its own ghost log of accepted spends and evaluates the property's conclusions:
   * simple / weighted policy accept exactly when count / weight sum reaches the threshold
     read from the implementation's previous observation;
   * no stored threshold is 0 or unreachable (simple: checked against the rule of the call;
@@ -19,39 +20,16 @@ IMPLEMENTATION's observation lines:
   * long idle periods (`pol idle`: ledger moved by days/months with no policy call, then every
     getter re-read) change nothing (`site=policy.idle.changed`), and the window check above keeps
     counting spends made before the gap.
+The monitor core is proved sound in OZ/Props/C14Mon.lean (`monitor_accepts_every_model_trace`).
+NOT covered by that theorem (string level, trusted): `parseOp`, `parseCtx`, `parseKind`,
+`parseObs` (+ `parseS/W/L`), the printing `line`, and the two `site=policy.parse` alarms below.
 -/
 namespace OZ.Drv.C14
-open OZ.Drv OZ.Policies OZ.Host
+open OZ.Drv OZ.Policies OZ.Policies.Mon OZ.Host
 
-def NA : Nat := 2
-def NR : Nat := 2
-def keys : List (Nat × Nat) := (List.range NA).flatMap (fun a => (List.range NR).map (fun r => (a, r)))
-
-structure M where
-  s : Simple.State
-  w : Weighted.State
-  l : Spend.State
-
-def initM (label : String) : M :=
-  let st := (kvNat? (words label) "start").getD 100
-  { s := Simple.init, w := Weighted.init, l := Spend.init st }
+def initM (label : String) : M := M.init ((kvNat? (words label) "start").getD 100)
 
 /-! ### op lines -/
-
-structure POp where
-  kind : String
-  a : Nat
-  r : Nat
-  rs : List Nat
-  thr : Nat
-  w : List (Nat × Nat)
-  sgn : Nat
-  wt : Nat
-  lim : Int
-  per : Nat
-  ctxS : String
-  sg : List Nat
-  auth : List Nat
 
 def parsePairs (s : String) : List (Nat × Nat) :=
   if s = "" ∨ s = "-" then [] else (s.splitOn ",").filterMap (fun t =>
@@ -68,9 +46,32 @@ def parseCtx (s : String) : Option Ctx :=
   | "c" :: _ => some .createContract
   | _ => none
 
+def parseKind (s : String) : Option Kind :=
+  match s with
+  | "s_install" => some .sInstall
+  | "s_set" => some .sSet
+  | "s_uninstall" => some .sUninstall
+  | "s_enforce" => some .sEnforce
+  | "s_can" => some .sCan
+  | "w_install" => some .wInstall
+  | "w_set_thr" => some .wSetThr
+  | "w_set_weight" => some .wSetWeight
+  | "w_uninstall" => some .wUninstall
+  | "w_enforce" => some .wEnforce
+  | "w_can" => some .wCan
+  | "l_install" => some .lInstall
+  | "l_set_limit" => some .lSetLimit
+  | "l_uninstall" => some .lUninstall
+  | "l_enforce" => some .lEnforce
+  | "l_can" => some .lCan
+  | _ => none
+
+/-- a call line. (A `pol <kind> …` line whose kind is none of the sixteen entry points is no op
+line: the model answers `bad-op`, the monitor `site=policy.parse`.) -/
 def parseOp (ws : List String) : Option POp :=
   match ws with
   | "pol" :: kind :: rest => do
+    let kind ← parseKind kind
     let a ← kvNat? rest "a"
     let r ← kvNat? rest "r"
     let thr ← kvNat? rest "thr"
@@ -78,119 +79,37 @@ def parseOp (ws : List String) : Option POp :=
     let wt ← kvNat? rest "wt"
     let lim ← kvInt? rest "lim"
     let per ← kvNat? rest "per"
+    let ctxS := (kv? rest "ctx").getD ""
     pure { kind, a, r, rs := natList ((kv? rest "rs").getD "-"), thr,
            w := parsePairs ((kv? rest "w").getD "-"), sgn, wt, lim, per,
-           ctxS := (kv? rest "ctx").getD "", sg := natList ((kv? rest "sg").getD "-"),
+           ctxS, ctx := (parseCtx ctxS).getD .otherCall,
+           isTransfer := ctxS.startsWith "t:" ∨ ctxS.startsWith "x:",
+           amount := ((ctxS.drop 2).toString.toInt?).getD 0,
+           sg := natList ((kv? rest "sg").getD "-"),
            auth := natList ((kv? rest "auth").getD "-") }
   | _ => none
 
-/-! ### printing the model state -/
+/-- a `>` line for the model -/
+def parseLine (ws : List String) : Option Line :=
+  match ws with
+  | ["pol", "idle", n] => (kvNat? [n] "n").map Line.idle
+  | ["pol", "adv", n] => (kvNat? [n] "n").map Line.adv
+  | _ => (parseOp ws).map Line.call
 
-def joinOr (sep : String) (l : List String) : String := if l.isEmpty then "-" else sep.intercalate l
-
-def showS (s : Simple.State) : String :=
-  joinOr ";" (keys.filterMap (fun (a, r) => (s.thr a r).map (fun t => s!"{a}:{r}:{t}")))
-
-def showW (s : Weighted.State) : String :=
-  joinOr ";" (keys.filterMap (fun (a, r) => (s.par a r).map (fun p =>
-    s!"{a}:{r}:{p.threshold}:{joinOr "," (p.weights.map (fun (k, w) => s!"{k}={w}"))}")))
-
-def showL (s : Spend.State) : String :=
-  joinOr ";" (keys.filterMap (fun (a, r) => (s.store a r).map (fun d =>
-    s!"{a}:{r}:{d.limit}:{d.period}:{d.cached}:{joinOr "," (d.history.map (fun e => s!"{e.amount}@{e.ledger}"))}")))
+/-! ### printing the model's observation -/
 
 def line (m : M) (tag res ev dem : String) : String :=
   s!"{tag} r={res} S={showS m.s} W={showW m.w} L={showL m.l} now={m.l.now} ev={ev} dem={dem}"
 
-def canLine (m : M) (r : Except Err Bool) : M × String :=
-  match r with
-  | .ok true => (m, line m "ok" "true" "-" "-")
-  | .ok false => (m, line m "no" "false" "-" "-")
-  | .error _ => (m, line m "err" "trap" "-" "-")
-
-def showSimpleEv : Simple.Event → String
-  | .enforced a r sg => s!"S:{a}:{r}:{sg.length}"
-def showWeightedEv : Weighted.Event → String
-  | .enforced a r sg => s!"W:{a}:{r}:{sg.length}"
-def showSpendEv : Spend.Event → String
-  | .enforced a r amt tot => s!"L:{a}:{r}:{amt}:{tot}"
-
 /-- one op line through the model -/
 def stepLine (m : M) (ln : String) : M × String :=
-  let ws := words ln
-  match ws with
-  | ["pol", "idle", n] =>
-    -- a long idle period is nothing but a ledger advance for the model: persistent state stays
-    match kvNat? [n] "n" with
-    | some k =>
-      let m' := { m with l := { m.l with now := m.l.now + k } }
-      (m', line m' "ok" "-" "-" "-")
-    | none => (m, "bad-op")
-  | ["pol", "adv", n] =>
-    match kvNat? [n] "n" with
-    | some k =>
-      let m' := { m with l := { m.l with now := m.l.now + k } }
-      (m', line m' "ok" "-" "-" "-")
-    | none => (m, "bad-op")
-  | _ =>
-  match parseOp ws with
+  match parseLine (words ln) with
   | none => (m, "bad-op")
-  | some o =>
-    let rule : Rule := ⟨o.r, o.rs⟩
-    let ctx := (parseCtx o.ctxS).getD .otherCall
-    let fin {σ : Type} (r : Except Err σ) (put : σ → M) (evs : σ → String) : M × String :=
-      match r with
-      | .ok s' => let m' := put s'; (m', line m' "ok" "-" (evs s') (toString o.a))
-      | .error _ => (m, line m "err" "-" "-" "-")
-    let sEv (s' : Simple.State) := joinOr ";" ((s'.events.drop m.s.events.length).map showSimpleEv)
-    let wEv (s' : Weighted.State) := joinOr ";" ((s'.events.drop m.w.events.length).map showWeightedEv)
-    let lEv (s' : Spend.State) := joinOr ";" ((s'.events.drop m.l.events.length).map showSpendEv)
-    match o.kind with
-    | "s_install" => fin (Simple.install m.s o.auth o.thr rule o.a) (fun s' => { m with s := s' }) sEv
-    | "s_set" => fin (Simple.setThreshold m.s o.auth o.thr rule o.a) (fun s' => { m with s := s' }) sEv
-    | "s_uninstall" => fin (Simple.uninstall m.s o.auth rule o.a) (fun s' => { m with s := s' }) sEv
-    | "s_enforce" => fin (Simple.enforce m.s o.auth ctx o.sg rule o.a) (fun s' => { m with s := s' }) sEv
-    | "s_can" => canLine m (.ok (Simple.canEnforce m.s ctx o.sg rule o.a))
-    | "w_install" => fin (Weighted.install m.w o.auth o.w o.thr rule o.a) (fun s' => { m with w := s' }) wEv
-    | "w_set_thr" => fin (Weighted.setThreshold m.w o.auth o.thr rule o.a) (fun s' => { m with w := s' }) wEv
-    | "w_set_weight" =>
-      fin (Weighted.setSignerWeight m.w o.auth o.sgn o.wt rule o.a) (fun s' => { m with w := s' }) wEv
-    | "w_uninstall" => fin (Weighted.uninstall m.w o.auth rule o.a) (fun s' => { m with w := s' }) wEv
-    | "w_enforce" => fin (Weighted.enforce m.w o.auth ctx o.sg rule o.a) (fun s' => { m with w := s' }) wEv
-    | "w_can" => canLine m (Weighted.canEnforce m.w ctx o.sg rule o.a)
-    | "l_install" => fin (Spend.install m.l o.auth o.lim o.per rule o.a) (fun s' => { m with l := s' }) lEv
-    | "l_set_limit" => fin (Spend.setSpendingLimit m.l o.auth o.lim rule o.a) (fun s' => { m with l := s' }) lEv
-    | "l_uninstall" => fin (Spend.uninstall m.l o.auth rule o.a) (fun s' => { m with l := s' }) lEv
-    | "l_enforce" => fin (Spend.enforce m.l o.auth ctx o.sg rule o.a) (fun s' => { m with l := s' }) lEv
-    | "l_can" => canLine m (Spend.canEnforce m.l ctx o.sg rule o.a)
-    | _ => (m, "bad-op")
+  | some l =>
+    let (m', out) := mstep m l
+    (m', line m' out.tag out.res out.ev out.dem)
 
 /-! ### the monitor (implementation observations only) -/
-
-structure WObs where
-  a : Nat
-  r : Nat
-  thr : Nat
-  ws : List (Nat × Nat)
-
-structure LObs where
-  a : Nat
-  r : Nat
-  lim : Int
-  per : Nat
-  cached : Int
-  hist : List (Int × Nat)
-
-structure Obs where
-  tag : String
-  res : String
-  S : List (Nat × Nat × Nat)
-  W : List WObs
-  L : List LObs
-  now : Nat
-  ev : String
-  dem : String
-  stateStr : String
 
 def sections (s : String) : List String := if s = "-" ∨ s = "" then [] else s.splitOn ";"
 
@@ -224,178 +143,29 @@ def parseObs (ln : String) : Option Obs :=
     let sS := (kv? rest "S").getD "?"
     let sW := (kv? rest "W").getD "?"
     let sL := (kv? rest "L").getD "?"
-    pure { tag, res := (kv? rest "r").getD "?", S := (← parseS sS), W := (← parseW sW), L := (← parseL sL),
+    pure { ok := tag == "ok", res := (kv? rest "r").getD "?", S := (← parseS sS), W := (← parseW sW), L := (← parseL sL),
            now := (← kvNat? rest "now"), ev := (kv? rest "ev").getD "?", dem := (kv? rest "dem").getD "?",
-           stateStr := s!"S={sS} W={sW} L={sL}" }
+           stateStr := stateFmt sS sW sL }
   | _ => none
-
-/-- an accepted spend as the monitor saw it: account, rule, amount, ledger, limit in force, period -/
-structure Spent where
-  a : Nat
-  r : Nat
-  amount : Int
-  ledger : Nat
-  limit : Int
-  period : Nat
-
-structure Mon where
-  prev : Option Obs
-  lastCan : Option (String × String)     -- arguments of the preceding can_enforce, its answer
-  log : List Spent                       -- newest first
-
-def isum (l : List Int) : Int := l.foldl (· + ·) 0
-def nsum (l : List Nat) : Nat := l.foldl (· + ·) 0
-
-def sortedNat : List Nat → Bool
-  | a :: b :: rest => a ≤ b && sortedNat (b :: rest)
-  | _ => true
-
-def nodupNat : List Nat → Bool
-  | [] => true
-  | a :: rest => !rest.contains a && nodupNat rest
-
-/-- the map denoted by install pairs (a later pair for the same signer wins) -/
-def lastWins (ps : List (Nat × Nat)) : List (Nat × Nat) :=
-  ps.foldl (fun m p => (m.filter (fun q => q.1 ≠ p.1)) ++ [p]) []
-
-def firstSome (l : List (Unit → Option String)) : Option String :=
-  match l with
-  | [] => none
-  | f :: rest => match f () with
-    | some m => some m
-    | none => firstSome rest
-
-/-- invariants every observed state must satisfy -/
-def stateChecks (o : Obs) : Option String :=
-  firstSome [
-    fun _ => if o.S.any (fun (_, _, t) => t = 0) then some "site=policy.simple.zero a stored simple threshold is 0" else none,
-    fun _ => if o.W.any (fun w => w.thr = 0) then some "site=policy.weighted.zero a stored weighted threshold is 0" else none,
-    fun _ => if o.W.any (fun w => nsum (w.ws.map (·.2)) > U32_MAX) then
-        some "site=policy.weighted.overflow stored weights sum past u32::MAX" else none,
-    fun _ => if o.W.any (fun w => w.thr > nsum (w.ws.map (·.2))) then
-        some "site=policy.weighted.unreachable stored threshold exceeds the total configured weight" else none,
-    fun _ => if o.L.any (fun d => d.cached ≠ isum (d.hist.map (·.1))) then
-        some "site=policy.spend.cache cached_total_spent differs from the sum of the history" else none,
-    fun _ => if o.L.any (fun d => !sortedNat (d.hist.map (·.2))) then some "site=policy.spend.sorted history not sorted by ledger" else none,
-    fun _ => if o.L.any (fun d => d.hist.any (fun e => e.2 > o.now)) then some "site=policy.spend.future history entry from the future" else none,
-    fun _ => if o.L.any (fun d => d.hist.length > 1000) then some "site=policy.spend.capacity more than 1000 history entries" else none,
-    fun _ => if o.L.any (fun d => d.lim ≤ 0 ∨ d.per = 0) then some "site=policy.spend.config non-positive limit or zero period stored" else none ]
 
 def check (m : Mon) (opl obs : String) : Mon × Option String :=
   match parseObs obs with
   | none => (m, some s!"site=policy.parse unparsable observation {obs.take 200}")
   | some o =>
     let ws := words opl
-    let prev : Obs := m.prev.getD { o with S := [], W := [], L := [], stateStr := "S=- W=- L=-" }
-    if ws.take 2 = ["pol", "idle"] then
-      -- every getter was re-read after a long period without any policy call
-      ({ m with prev := some o, lastCan := none },
-        if o.stateStr ≠ prev.stateStr then
-          some s!"site=policy.idle.changed a threshold, weight map or spending-limit entry changed or vanished while the policies were idle: before {prev.stateStr.take 160} after {o.stateStr.take 160}"
-        else stateChecks o)
-    else if ws.take 2 = ["pol", "adv"] then
-      ({ m with prev := some o, lastCan := none },
-        if o.stateStr ≠ prev.stateStr then some "site=policy.adv a ledger advance changed policy state" else stateChecks o)
+    if ws.take 2 = ["pol", "idle"] then checkCore m .idle o
+    else if ws.take 2 = ["pol", "adv"] then checkCore m .adv o
     else
     match parseOp ws with
     | none => (m, some s!"site=policy.parse unparsable op {opl.take 200}")
-    | some p =>
-      let ok : Bool := o.tag == "ok"
-      let resTrue : Bool := o.res == "true"
-      let isCan := p.kind.endsWith "_can"
-      let pol : String := (p.kind.take 1).toString
-      let canKey := s!"{pol} a={p.a} r={p.r} rs={p.rs} ctx={p.ctxS} sg={p.sg}"
-      let authd := p.auth.contains p.a
-      let isTransfer := p.ctxS.startsWith "t:" ∨ p.ctxS.startsWith "x:"
-      let amount : Int := ((p.ctxS.drop 2).toString.toInt?).getD 0
-      -- previous configuration of the key, as the implementation reported it
-      let sThr := (prev.S.find? (fun (a, r, _) => a = p.a ∧ r = p.r)).map (·.2.2)
-      let wCfg := prev.W.find? (fun w => w.a = p.a ∧ w.r = p.r)
-      let lCfg := prev.L.find? (fun d => d.a = p.a ∧ d.r = p.r)
-      let wOf (k : Nat) : Nat := match wCfg with
-        | some c => ((c.ws.find? (fun q => q.1 = k)).map (·.2)).getD 0
-        | none => 0
-      let wSum := nsum (p.sg.map wOf)
-      -- ghost log update
-      let entry : Option Spent :=
-        if ok ∧ p.kind = "l_enforce" then
-          match lCfg with
-          | some d => some ⟨p.a, p.r, amount, o.now, d.lim, d.per⟩
-          | none => some ⟨p.a, p.r, amount, o.now, 0, 1⟩
-        else none
-      let log1 := match entry with | some e => e :: m.log | none => m.log
-      let log2 := if ok ∧ p.kind = "l_uninstall" then log1.filter (fun e => ¬ (e.a = p.a ∧ e.r = p.r)) else log1
-      let m' : Mon := { prev := some o, lastCan := if isCan then some (canKey, o.res) else none, log := log2 }
-      let expectAccept : Option Bool :=
-        if pol = "s" then some (match sThr with | some t => decide (t ≤ p.sg.length) | none => false)
-        else if pol = "w" then
-          some (match wCfg with | some c => decide (wSum ≤ U32_MAX ∧ c.thr ≤ wSum) | none => false)
-        else none
-      let fail : Option String := firstSome [
-        fun _ => stateChecks o,
-        -- rejected calls and queries leave no trace
-        fun _ => if (¬ ok ∨ isCan) ∧ o.stateStr ≠ prev.stateStr then
-            some s!"site=policy.rollback a rejected call or a can_enforce query changed a getter ({p.kind})" else none,
-        fun _ => if (¬ ok ∨ isCan) ∧ o.ev ≠ "-" then some "site=policy.rollback.event a rejected call emitted an event" else none,
-        -- only the account itself
-        fun _ => if ok ∧ ¬ isCan ∧ ¬ authd then
-            some s!"site=policy.auth {p.kind} accepted without the smart account's authorization" else none,
-        fun _ => if ok ∧ ¬ isCan ∧ o.dem ≠ toString p.a then
-            some s!"site=policy.auth.demand {p.kind} demanded authorization of {o.dem}, expected {p.a}" else none,
-        -- threshold / weight rules
-        fun _ => match expectAccept with
-          | some e =>
-            if isCan ∧ resTrue ≠ e then
-              some s!"site=policy.{pol}.can can_enforce answered {o.res}; count/weight rule says {e}"
-            else if p.kind.endsWith "_enforce" ∧ authd ∧ ok ≠ e then
-              some s!"site=policy.{pol}.enforce enforce accepted={ok}; count/weight rule says {e}"
-            else none
-          | none => none,
-        fun _ => if pol = "w" ∧ isCan ∧ o.res = "trap" ∧ nodupNat p.sg then
-            some "site=policy.w.trap can_enforce trapped on a duplicate-free signer list" else none,
-        -- configuration validity at every change
-        fun _ => if ok ∧ (p.kind = "s_install" ∨ p.kind = "s_set") ∧ (p.thr = 0 ∨ p.thr > p.rs.length) then
-            some s!"site=policy.simple.config threshold {p.thr} accepted for a rule with {p.rs.length} signers" else none,
-        fun _ => if ok ∧ p.kind = "s_install" ∧ sThr.isSome then some "site=policy.simple.reinstall installed twice" else none,
-        fun _ => if ok ∧ p.kind = "w_install" ∧
-              (p.thr = 0 ∨ p.thr > nsum ((lastWins p.w).map (·.2)) ∨ nsum ((lastWins p.w).map (·.2)) > U32_MAX) then
-            some "site=policy.weighted.config install accepted a zero/unreachable threshold or overflowing weights" else none,
-        fun _ => if ok ∧ p.kind = "w_install" ∧ wCfg.isSome then some "site=policy.weighted.reinstall installed twice" else none,
-        fun _ => if ok ∧ p.kind = "w_set_thr" ∧ (p.thr = 0 ∨ wCfg.isNone ∨ p.thr > nsum ((wCfg.map (·.ws.map (·.2))).getD [])) then
-            some "site=policy.weighted.config set_threshold accepted a zero/unreachable threshold" else none,
-        fun _ => if ok ∧ (p.kind = "l_install" ∨ p.kind = "l_set_limit") ∧ p.lim ≤ 0 then
-            some "site=policy.spend.config non-positive limit accepted" else none,
-        fun _ => if ok ∧ p.kind = "l_install" ∧ (p.per = 0 ∨ lCfg.isSome) then
-            some "site=policy.spend.config zero period or re-install accepted" else none,
-        -- spending: context, signers, window
-        fun _ => if ok ∧ p.kind = "l_enforce" ∧ (¬ isTransfer ∨ p.sg.isEmpty ∨ lCfg.isNone) then
-            some "site=policy.spend.ctx enforce accepted a non-transfer/malformed context, no signer, or no installation" else none,
-        fun _ => if isCan ∧ pol = "l" ∧ o.res = "true" ∧ (¬ isTransfer ∨ p.sg.isEmpty ∨ lCfg.isNone) then
-            some "site=policy.spend.ctx can_enforce true for a non-transfer/malformed context, no signer, or no installation" else none,
-        fun _ => match entry with
-          | some e =>
-            let win := isum ((log2.filter (fun x => x.a = e.a ∧ x.r = e.r ∧ e.ledger < x.ledger + e.period)).map (·.amount))
-            if e.ledger ≥ 1 ∧ win > e.limit then
-              some s!"site=policy.spend.window accepted amounts in ({e.ledger}-{e.period}, {e.ledger}] sum to {win} > limit {e.limit}"
-            else none
-          | none => none,
-        -- can_enforce (asked immediately before, same arguments, same state) agrees with enforce
-        fun _ => if p.kind.endsWith "_enforce" ∧ authd then
-            match m.lastCan with
-            | some (k, ans) =>
-              if k = canKey ∧ (ans == "true") ≠ ok then
-                some s!"site=policy.{pol}.agree can_enforce answered {ans} but enforce accepted={ok} in the same state"
-              else none
-            | none => none
-          else none ]
-      (m', fail)
+    | some p => checkCore m (.call p) o
 
 def machine : Machine where
   σ := M
   init := initM
   op := stepLine
   μ := Mon
-  minit := fun _ => { prev := none, lastCan := none, log := [] }
+  minit := fun _ => monInit
   mon := check
 
 end OZ.Drv.C14
